@@ -2,7 +2,7 @@
     the wall-clock bound is measured on real processes by the campaign). *)
 From Coq Require Import ZArith List Bool.
 From Coq Require Import QArith.
-From VD Require Import Model.Exit Proofs.ExitP Gen.Exprs Proofs.ExprTie.
+From VD Require Import Model.Exit Proofs.ExitP Gen.ExprsExit Proofs.TieExit.
 Import ListNotations.
 Open Scope Z_scope.
 
@@ -40,7 +40,7 @@ Example C09_server_closes_mid_script : exit_status [XLostClean; XStop] = 10.
 Proof. reflexivity. Qed.
 
 (** The --timeout timer is armed with the option's value itself - wall-clock seconds, whatever --warp says: the first
-    argument of the one reactor.callLater in vncdo() as regenerated from command.py (gen/exprs.py, [Gen/Exprs.v]). *)
+    argument of the one reactor.callLater in vncdo() as regenerated from command.py (gen/exprs.py, [Gen/Exprs*.v]). *)
 Theorem C09_timeout_is_wall_clock : forall t w, (gen_timeout_delay t w == t)%Q.
 Proof. exact timeout_is_wall_clock. Qed.
 Print Assumptions C09_timeout_is_wall_clock.
